@@ -254,3 +254,252 @@ Lemma plain_resets :
   /\ const_reset obj_uint uintb0 /\ const_reset obj_clen uintb0 /\ (forall h, const_reset (obj_nameaddr h) pfrom0)
   /\ const_reset obj_onepai pfrom0 /\ const_reset obj_pais pais0 /\ const_reset obj_tokparam tokparam0.
 Proof. unfold const_reset. repeat split; reflexivity. Qed.
+
+(* ---- header list, header values, whole message --------------------------------------------- *)
+(* w: is there a header-values object at all; cap: capacity of its contacts array *)
+Definition pv_cap (w : bool) (cap : nat) (o : option phvals) : Prop :=
+  match o with None => w = false | Some v => w = true /\ length (ct_vals (pv_contacts v)) = cap end.
+
+Lemma run_contacts_len pre rest i c :
+  match run ct_iter pre rest i 0 c with Done _ _ c' => length (ct_vals c') = length (ct_vals c) | _ => True end.
+Proof.
+  apply (run_keeps ct_iter (fun x => length (ct_vals x) = length (ct_vals c))); [|reflexivity].
+  intros p r j s Hs. pose proof (ct_iter_len p r j s). destruct (ct_iter p r j s); congruence.
+Qed.
+
+Lemma hb_finish_pv {B} w cap (r : res B) st valof (put : B -> phvals) :
+  (forall n e b, r = Done n e b -> pv_cap w cap (Some (put b))) ->
+  match hb_finish r st valof put with
+  | Next _ st' => pv_cap w cap (hx_pv st') | Ret _ _ st' => pv_cap w cap (hx_pv st') | IPanic => True end.
+Proof. intros H. unfold hb_finish. destruct r as [n e b| |]; auto. cbn. eapply H; eauto. Qed.
+
+Lemma hb_run_pv w cap hs pre rest o st v : pv_cap w cap (Some v) ->
+  match hb_run hs pre rest o st v with
+  | Next _ st' => pv_cap w cap (hx_pv st') | Ret _ _ st' => pv_cap w cap (hx_pv st') | IPanic => True end.
+Proof.
+  intros Hv. unfold hb_run. destruct hs; auto; apply hb_finish_pv; intros n e b Hr; cbn in *; try exact Hv.
+  (* contacts: the array keeps its length *)
+  pose proof (run_contacts_len pre rest o (pv_contacts v)) as H. rewrite Hr in H. destruct Hv. split; congruence.
+Qed.
+
+Lemma hb_parse_body_pv w cap pre rest o st : pv_cap w cap (hx_pv st) ->
+  match hb_parse_body pre rest o st with
+  | Some (Next _ st') => pv_cap w cap (hx_pv st') | Some (Ret _ _ st') => pv_cap w cap (hx_pv st') | _ => True end.
+Proof.
+  intros Hv. unfold hb_parse_body. destruct (hx_pv st) as [v|] eqn:E; auto.
+  repeat match goal with |- context [if ?b then _ else _] => destruct b end; auto;
+  match goal with |- context [hb_run ?hs ?p ?r ?oo ?s ?vv] =>
+    pose proof (hb_run_pv w cap hs p r oo s vv) as H; destruct (hb_run hs p r oo s vv); apply H; cbn in *; exact Hv end.
+Qed.
+
+Lemma hl_colon_pv w cap pre rest i k st : pv_cap w cap (hx_pv st) ->
+  match hl_colon pre rest i k st with
+  | Next _ st' => pv_cap w cap (hx_pv st') | Ret _ _ st' => pv_cap w cap (hx_pv st') | IPanic => True end.
+Proof.
+  intros Hv. unfold hl_colon. destruct (zget _ _ _ _); auto.
+  set (st1 := st <| hx_h := _ |>). assert (H1 : pv_cap w cap (hx_pv st1)) by (subst st1; destruct st; exact Hv).
+  pose proof (hb_parse_body_pv w cap (zpre (S k) pre rest) (zrest (S k) rest) (i + nnat k + 1) st1 H1) as H.
+  destruct (hb_parse_body _ _ _ st1) as [[| |]|]; auto.
+Qed.
+
+Lemma hl_iter_pv w cap pre rest i st : pv_cap w cap (hx_pv st) ->
+  match hl_iter pre rest i st with
+  | Next _ st' => pv_cap w cap (hx_pv st') | Ret _ _ st' => pv_cap w cap (hx_pv st') | IPanic => True end.
+Proof.
+  intros Hv. unfold hl_iter.
+  assert (Hset : forall h, pv_cap w cap (hx_pv (st <| hx_h := h |>))) by (intros h; destruct st; exact Hv).
+  destruct rest as [|c r1]; [exact Hv|].
+  assert (Hname : forall st0, pv_cap w cap (hx_pv st0) ->
+            match hl_name_ph pre (c :: r1) i st0 with
+            | Next _ st' => pv_cap w cap (hx_pv st') | Ret _ _ st' => pv_cap w cap (hx_pv st') | IPanic => True end).
+  { intros st0 H0. unfold hl_name_ph.
+    destruct (skipn _ _) as [|d ?]; [exact H0|].
+    destruct (is_sp d).
+    - destruct (pf_extend _ _); cbn; auto. destruct (pf_empty _); destruct st0; exact H0.
+    - destruct (d =? 58); [|exact H0]. destruct (pf_extend _ _); cbn; auto.
+      destruct (pf_empty _); [destruct st0; exact H0|]. apply hl_colon_pv. destruct st0; exact H0. }
+  destruct (h_state (hx_h st)) eqn:Es.
+  - (* HInit *)
+    destruct (is_cr c); [destruct r1; [exact Hv|apply Hset]|].
+    destruct (is_lf c); [apply Hset|]. destruct (pf_set i i); cbn; auto. apply Hname. apply Hset.
+  - apply Hname. exact Hv.
+  - destruct (skipn _ _) as [|d ?]; [exact Hv|]. destruct (d =? 58); [apply hl_colon_pv|]; exact Hv.
+  - destruct (skipLWS false (c :: r1)); try exact Hv; try apply Hset. destruct (pf_set _ _); cbn; auto.
+  - (* HVal *)
+    destruct (skipn _ _); [exact Hv|]. destruct (pf_extend _ _); auto.
+    destruct (skipLWS false _); apply Hset.
+  - (* HValEnd *)
+    cbn [skipn]. destruct (skipLWS false _); apply Hset.
+  - destruct (hx_pv st) as [v|] eqn:E; auto. pose proof (hb_run_pv w cap HFrom pre (c :: r1) i st v) as H. destruct (hb_run _ _ _ _ _ _); apply H; exact Hv.
+  - destruct (hx_pv st) as [v|] eqn:E; auto. pose proof (hb_run_pv w cap HTo pre (c :: r1) i st v) as H. destruct (hb_run _ _ _ _ _ _); apply H; exact Hv.
+  - destruct (hx_pv st) as [v|] eqn:E; auto. pose proof (hb_run_pv w cap HCallID pre (c :: r1) i st v) as H. destruct (hb_run _ _ _ _ _ _); apply H; exact Hv.
+  - destruct (hx_pv st) as [v|] eqn:E; auto. pose proof (hb_run_pv w cap HCSeq pre (c :: r1) i st v) as H. destruct (hb_run _ _ _ _ _ _); apply H; exact Hv.
+  - destruct (hx_pv st) as [v|] eqn:E; auto. pose proof (hb_run_pv w cap HCLen pre (c :: r1) i st v) as H. destruct (hb_run _ _ _ _ _ _); apply H; exact Hv.
+  - destruct (hx_pv st) as [v|] eqn:E; auto. pose proof (hb_run_pv w cap HContact pre (c :: r1) i st v) as H. destruct (hb_run _ _ _ _ _ _); apply H; exact Hv.
+  - destruct (hx_pv st) as [v|] eqn:E; auto. pose proof (hb_run_pv w cap HExpires pre (c :: r1) i st v) as H. destruct (hb_run _ _ _ _ _ _); apply H; exact Hv.
+  - destruct (hx_pv st) as [v|] eqn:E; auto. pose proof (hb_run_pv w cap HPAI pre (c :: r1) i st v) as H. destruct (hb_run _ _ _ _ _ _); apply H; exact Hv.
+  - exact Hv.
+Qed.
+
+
+(* the two capacities of a header-block state *)
+Definition hs_caps (w : bool) (hcap ccap : nat) (x : hdrs_st) : Prop :=
+  length (hl_hdrs (hs_l x)) = hcap /\ pv_cap w ccap (hs_pv x) .
+
+Lemma hl_store_len l h : length (hl_hdrs (hl_store l h)) = length (hl_hdrs l).
+Proof. unfold hl_store. destruct (hl_is_tmp l); cbn; rewrite ?set_nth_length; reflexivity. Qed.
+Lemma hl_sethdr_len l h : length (hl_hdrs (hl_sethdr l h)) = length (hl_hdrs l).
+Proof. unfold hl_sethdr. destruct (_ && _); reflexivity. Qed.
+
+Lemma hs_iter_caps w hcap ccap pre rest i x : hs_caps w hcap ccap x ->
+  match hs_iter pre rest i x with
+  | Next _ x' => hs_caps w hcap ccap x' | Ret _ _ x' => hs_caps w hcap ccap x' | IPanic => True end.
+Proof.
+  intros [Hh Hc]. unfold hs_iter. destruct rest as [|c r]; [split; assumption|].
+  pose proof (run_keeps hl_iter (fun st => pv_cap w ccap (hx_pv st)) (fun p r0 j s => hl_iter_pv w ccap p r0 j s)
+                pre (c :: r) i (mkhline (hl_slot (hs_l x)) (hs_pv x)) Hc) as Hrun.
+  destruct (run hl_iter pre (c :: r) i 0 _) as [n e y| |]; auto.
+  assert (Hl1 : length (hl_hdrs (hl_store (hs_l x) (hx_h y))) = hcap) by (rewrite hl_store_len; exact Hh).
+  destruct e; try (split; [exact Hl1|exact Hrun]).
+  - (* EOk *) split; [|exact Hrun]. cbn [hs_l].
+    destruct (hl_is_tmp (hs_l x)); cbn; rewrite hl_sethdr_len; cbn; exact Hl1.
+  - (* EEmpty *) destruct (0 <? _); split; assumption.
+Qed.
+
+Lemma parse_headers_caps w hcap ccap buf offs x : hs_caps w hcap ccap x ->
+  match parse_headers buf offs x with Done _ _ x' => hs_caps w hcap ccap x' | _ => True end.
+Proof.
+  intros H. unfold parse_headers, parse, zinit.
+  apply (run_keeps hs_iter (hs_caps w hcap ccap) (fun p r j s => hs_iter_caps w hcap ccap p r j s)). exact H.
+Qed.
+
+Lemma hdrs_reset_new w hcap ccap x : hs_caps w hcap ccap x ->
+  hdrs_reset x = mkhdrs_st (hdrlst_init (repeat hdr0 hcap))
+                           (match hs_pv x with Some _ => Some (phvals_init (repeat pfrom0 ccap)) | None => None end).
+Proof.
+  intros [Hh Hc]. unfold hdrs_reset. rewrite hdrlst_reset_new, Hh. f_equal.
+  destruct (hs_pv x) as [v|]; [|reflexivity]. cbn in Hc. destruct Hc as [_ Hc]. now rewrite phvals_reset_new, Hc.
+Qed.
+
+Theorem headers_history_reset hcap ccap withpv ops :
+  let new := mkhdrs_st (hdrlst_init (repeat hdr0 hcap))
+                       (if withpv : bool then Some (phvals_init (repeat pfrom0 ccap)) else None) in
+  match exec_ops obj_headers ops new with
+  | Some x => ob_reset obj_headers x = new
+  | None => True
+  end.
+Proof.
+  intros new.
+  pose proof (exec_keeps obj_headers (hs_caps withpv hcap ccap)) as H.
+  assert (Hnew : hs_caps withpv hcap ccap new).
+  { subst new. destruct withpv; cbn; repeat split; apply repeat_length. }
+  assert (Hres : forall s, hs_caps withpv hcap ccap s -> hdrs_reset s = new).
+  { intros s Hs. rewrite (hdrs_reset_new withpv hcap ccap s Hs). subst new. destruct Hs as [_ Hc].
+    destruct (hs_pv s), withpv; cbn in Hc; try reflexivity; try discriminate; try (destruct Hc; discriminate). }
+  specialize (H ltac:(intros fl b o s Hs; change (ob_parse obj_headers fl b o s) with (parse_headers b o s);
+                      apply parse_headers_caps; exact Hs)).
+  specialize (H ltac:(intros s Hs; change (ob_reset obj_headers s) with (hdrs_reset s); rewrite (Hres s Hs); exact Hnew)).
+  specialize (H ops new Hnew).
+  destruct (exec_ops _ _ _) as [x|]; [apply Hres; exact H|exact I].
+Qed.
+
+(* ---- one header line ------------------------------------------------------------------------- *)
+Theorem hdrline_history_reset ccap withpv ops :
+  let new := mkhline hdr0 (if withpv : bool then Some (phvals_init (repeat pfrom0 ccap)) else None) in
+  match exec_ops obj_hdrline ops new with
+  | Some x => ob_reset obj_hdrline x = new
+  | None => True
+  end.
+Proof.
+  intros new.
+  pose proof (exec_keeps obj_hdrline (fun x => pv_cap withpv ccap (hx_pv x))) as H.
+  assert (Hnew : pv_cap withpv ccap (hx_pv new)).
+  { subst new. destruct withpv; cbn; repeat split; apply repeat_length. }
+  assert (Hres : forall s, pv_cap withpv ccap (hx_pv s) -> hline_reset s = new).
+  { intros s Hs. unfold hline_reset. subst new. destruct (hx_pv s) as [v|], withpv; cbn in Hs;
+      try reflexivity; try discriminate; try (destruct Hs; discriminate).
+    destruct Hs as [_ Hs]. now rewrite phvals_reset_new, Hs. }
+  specialize (H ltac:(intros fl b o s Hs; change (ob_parse obj_hdrline fl b o s) with (parse_hdrline b o s);
+                      unfold parse_hdrline, parse, zinit;
+                      apply (run_keeps hl_iter (fun st => pv_cap withpv ccap (hx_pv st))
+                               (fun p r j st => hl_iter_pv withpv ccap p r j st)); exact Hs)).
+  specialize (H ltac:(intros s Hs; change (ob_reset obj_hdrline s) with (hline_reset s); rewrite (Hres s Hs); exact Hnew)).
+  specialize (H ops new Hnew).
+  destruct (exec_ops _ _ _) as [x|]; [apply Hres; exact H|exact I].
+Qed.
+
+(* ---- the whole message --------------------------------------------------------------------------- *)
+Definition msg_caps (hcap ccap : nat) (m : pmsg) : Prop := hs_caps true hcap ccap (m_hs m).
+
+Lemma msg_body_caps hcap ccap flags bl o m : msg_caps hcap ccap m ->
+  match msg_body flags bl o m with Done _ _ m' => msg_caps hcap ccap m' | _ => True end.
+Proof.
+  intros H. unfold msg_body, msg_end, msg_caps in *.
+  repeat match goal with
+         | |- context [match ?x with Some _ => _ | None => _ end] => destruct x
+         | |- context [if ?b then _ else _] => destruct b
+         end; cbn; auto.
+Qed.
+Lemma msg_fail_caps hcap ccap flags o e m : msg_caps hcap ccap m ->
+  match msg_fail flags o e m with Done _ _ m' => msg_caps hcap ccap m' | _ => True end.
+Proof. intros H. unfold msg_fail, msg_caps in *. destruct e; try destruct (testbit _ _); cbn; auto. Qed.
+
+Lemma msg_headers_caps hcap ccap flags buf o m : msg_caps hcap ccap m ->
+  match msg_headers flags buf o m with Done _ _ m' => msg_caps hcap ccap m' | _ => True end.
+Proof.
+  intros H. unfold msg_headers. pose proof (parse_headers_caps true hcap ccap buf o (m_hs m) H) as Hp.
+  destruct (parse_headers buf o (m_hs m)) as [o' e hs| |]; auto.
+  destruct e; try (apply msg_fail_caps; exact Hp). apply msg_body_caps. exact Hp.
+Qed.
+Lemma msg_fline_caps hcap ccap flags buf o m : msg_caps hcap ccap m ->
+  match msg_fline flags buf o m with Done _ _ m' => msg_caps hcap ccap m' | _ => True end.
+Proof.
+  intros H. unfold msg_fline. destruct (parse_fline buf o (m_fl m)) as [o' e fl| |]; auto.
+  destruct e; try (apply msg_fail_caps; exact H). apply msg_headers_caps. exact H.
+Qed.
+Lemma parse_sipmsg_caps hcap ccap flags buf o m : msg_caps hcap ccap m ->
+  match parse_sipmsg flags buf o m with Done _ _ m' => msg_caps hcap ccap m' | _ => True end.
+Proof.
+  intros H. unfold parse_sipmsg. cbv zeta.
+  assert (H1 : msg_caps hcap ccap (m <| m_buflen := nnat (length buf) |>)) by (destruct m; exact H).
+  destruct (m_state (m <| m_buflen := nnat (length buf) |>)).
+  - apply msg_fline_caps. destruct m; exact H.
+  - apply msg_fline_caps. exact H1.
+  - apply msg_headers_caps. exact H1.
+  - apply msg_body_caps. exact H1.
+  - apply msg_fail_caps. exact H1.
+  - apply msg_fail_caps. exact H1.
+  - apply msg_fail_caps. exact H1.
+Qed.
+
+(* Reset keeps Buf: the reset message is the new one up to len(Buf), which the next parse overwrites first *)
+Lemma msg_reset_new hcap ccap m : msg_caps hcap ccap m ->
+  msg_reset m = msg_init (m_buflen m) (repeat hdr0 hcap) (repeat pfrom0 ccap).
+Proof.
+  intros [Hh Hc]. unfold msg_reset. rewrite !map_const_repeat.
+  destruct (hs_pv (m_hs m)) as [v|]; cbn in Hc; [|discriminate]. destruct Hc as [_ Hc]. now rewrite Hh, Hc.
+Qed.
+Lemma parse_sipmsg_ignores_buflen flags buf o x H C :
+  parse_sipmsg flags buf o (msg_init x H C) = parse_sipmsg flags buf o (msg_init 0 H C).
+Proof. reflexivity. Qed.
+
+Theorem msg_history_reset hcap ccap ops :
+  match exec_ops obj_msg ops (msg_init 0 (repeat hdr0 hcap) (repeat pfrom0 ccap)) with
+  | Some m =>
+    msg_reset m = msg_init (m_buflen m) (repeat hdr0 hcap) (repeat pfrom0 ccap) /\
+    forall flags buf o, parse_sipmsg flags buf o (msg_reset m)
+                        = parse_sipmsg flags buf o (msg_init 0 (repeat hdr0 hcap) (repeat pfrom0 ccap))
+  | None => True
+  end.
+Proof.
+  pose proof (exec_keeps obj_msg (msg_caps hcap ccap)) as H.
+  assert (Hnew : forall x, msg_caps hcap ccap (msg_init x (repeat hdr0 hcap) (repeat pfrom0 ccap))).
+  { intros x. unfold msg_caps, hs_caps. cbn. repeat split; apply repeat_length. }
+  specialize (H ltac:(intros fl b o s Hs; apply parse_sipmsg_caps; exact Hs)).
+  specialize (H ltac:(intros s Hs; change (ob_reset obj_msg s) with (msg_reset s);
+                      rewrite (msg_reset_new hcap ccap s Hs); apply Hnew)).
+  specialize (H ops _ (Hnew 0)).
+  destruct (exec_ops _ _ _) as [m|]; [|exact I].
+  split; [apply msg_reset_new; exact H|]. intros flags buf o. rewrite (msg_reset_new hcap ccap m H).
+  apply parse_sipmsg_ignores_buflen.
+Qed.
